@@ -194,6 +194,9 @@ TWIN_FILES = [
 
 # functions sharing code: shared tails, several returns, interleaved layouts (C11, C10, C12)
 SHARED_PROGRAMS = [
+    # a function that runs into the tails of two other functions (each tail's return is already somebody's exit)
+    "main:\n    call f1\n    call f2\n    call f3\n    li a7, 10\n    ecall\nf1:\n    addi a0, a0, 1\ntail1:\n    li a0, 1\n    ret\nf2:\n    addi a0, a0, 2\ntail2:\n    li a0, 2\n    ret\nf3:\n    beqz a0, tail1\n    j tail2\n",
+    "main:\n    call f3\n    call f2\n    call f1\n    li a7, 10\n    ecall\nf3:\n    beqz a0, tail1\n    bnez a1, tail2\n    li a0, 3\n    ret\nf1:\n    addi a0, a0, 1\ntail1:\n    li a0, 1\n    ret\nf2:\n    addi a0, a0, 2\ntail2:\n    li a0, 2\n    ret\n",
     # interleaved bodies sharing a block that does not return: the exits are in the opposite order of the entries
     "main:\n    call f\n    call g\n    li a7, 10\n    ecall\nf:\n    beqz a0, fail\n    j f_end\ng:\n    beqz a0, fail\n    li a0, 2\n    ret\nf_end:\n    li a0, 1\n    ret\nfail:\n    li a7, 93\n    ecall\n",
     "main:\n    call fn_a\n    call fn_b\n    li a7, 10\n    ecall\nfn_a:\n    addi a0, a0, 1\n    j tail\nfn_b:\n    beqz a0, tail\n    li a0, 2\n    ret\ntail:\n    addi a0, a0, 3\n    ret\n",
